@@ -301,8 +301,37 @@ pub fn cstall(args: &[&str]) -> Option<Vec<String>> {
     let cap = timeout * 10 + Duration::from_secs(3);
     let envelope = lettre::address::Envelope::new(Some("a@b.c".parse().ok()?), vec!["x@y.z".parse().ok()?]).ok()?;
     let hello = ClientId::Domain("c.example".into());
+    // `l`: a connection of its own, bound to a local address (`SmtpConnection::connect(.., Some(local_address))`)
+    let local: Option<std::net::IpAddr> = if args.get(2) == Some(&"l") { crate::util::lo().parse().ok() } else { None };
     let t0 = Instant::now();
     let out = match client {
+        "s" if local.is_some() => {
+            let (tx, rx) = std::sync::mpsc::channel();
+            std::thread::spawn(move || {
+                let r = lettre::transport::smtp::client::SmtpConnection::connect((crate::util::lo(), port), Some(timeout), &hello, None, local);
+                let _ = tx.send(match r {
+                    Ok(_) => "ok:connected@-".to_string(),
+                    Err(e) => format!("{}@{}", crate::client::describe_err(&e), if e.is_timeout() { "t" } else { "n" }),
+                });
+            });
+            match rx.recv_timeout(cap) {
+                Ok(s) => s,
+                Err(_) => "HANG@-".into(),
+            }
+        }
+        "a" if local.is_some() => {
+            let rt = tokio::runtime::Builder::new_multi_thread().worker_threads(2).enable_all().build().ok()?;
+            let s = rt.block_on(async {
+                let fut = lettre::transport::smtp::client::AsyncSmtpConnection::connect_tokio1((crate::util::lo(), port), Some(timeout), &hello, None, local);
+                match tokio::time::timeout(cap, fut).await {
+                    Ok(Ok(_)) => "ok:connected@-".to_string(),
+                    Ok(Err(e)) => format!("{}@{}", crate::client::describe_err(&e), if e.is_timeout() { "t" } else { "n" }),
+                    Err(_) => "HANG@-".into(),
+                }
+            });
+            rt.shutdown_background();
+            s
+        }
         "s" => {
             let (tx, rx) = std::sync::mpsc::channel();
             std::thread::spawn(move || {
